@@ -710,6 +710,16 @@ func (vfs *OrefaFS) Remove(name string) error {
 	parent, parentOk := vfs.nodes[dirName]
 
 	if !childOk || !parentOk {
+		// As in Mkdir: the first existing ancestor tells a missing name from a file used as a directory.
+		for !parentOk {
+			dirName, _ = avfs.SplitAbs(vfs, dirName)
+			parent, parentOk = vfs.nodes[dirName]
+		}
+
+		if !parent.mode.IsDir() {
+			return &fs.PathError{Op: op, Path: name, Err: vfs.err.NotADirectory}
+		}
+
 		return &fs.PathError{Op: op, Path: name, Err: vfs.err.NoSuchFile}
 	}
 
